@@ -23,7 +23,7 @@ Definition frame_chunks : IT rawframe :=
   old_n <- word ;; duration <- word ;; _ <- word ;; new_n <- dword ;;
   let num_chunks := if new_n =? 0 then old_n else new_n in
   st <- iterZ num_chunks read_chunk ([], num_bytes - 16) ;;
-  Ret (duration, rev (fst st)).
+  Ret (duration, frev (fst st)).
 
 (* frames are collected newest first *)
 Definition framing_step (acc : list rawframe) : IT (list rawframe) :=
